@@ -26,8 +26,12 @@ class C47(hc.PProp):
         lines = ['url_rewrite_program /bin/true sim=rw', 'url_rewrite_children %d startup=1 concurrency=%d' % (rng.choice([1, 2]), rc), 'url_rewrite_extras "%%{X-Sim-Req}>h"',
                  'external_acl_type chk ttl=0 negative_ttl=0 children-max=%d children-startup=1 concurrency=%d %%{X-Sim-Key}>ha /bin/true sim=ext' % (rng.choice([1, 2]), ec),
                  'acl extok external chk', 'http_access allow extok', 'http_access deny all']
+        # third stratum: a rewriter timeout (on_timeout=bypass) with some answers arriving late, possibly split across writes
+        tmo = rng.choice([1, 2]) if rc > 0 and rng.random() < 0.4 else 0
+        if tmo:
+            lines.insert(3, 'url_rewrite_timeout %d seconds on_timeout=bypass' % tmo)
         plan = hc.std_plan(rng, {'cache': 'none', 'no_default_access': True, 'lines': lines}, hostile=rng.random() < 0.3)
-        plan['rc'] = rc; plan['ec'] = ec
+        plan['rc'] = rc; plan['ec'] = ec; plan['rw_timeout'] = tmo
         conns = []
         rid = index * 1000
         for c in range(rng.randint(1, 4)):
@@ -36,7 +40,11 @@ class C47(hc.PProp):
                 rid += 1
                 def beh():
                     return {'delay': rng.choice([0, 0, 1000, 20000, 200000]), 'frag': rng.choice([0, 0, 1, 3]), 'chan': rng.choice(['same'] * 6 + ['unknown', 'dup'])}
-                steps.append({'id': rid, 'allow': rng.random() < 0.75, 'rw': beh(), 'ext': beh(), 'pipeline': rng.random() < 0.3})
+                st = {'id': rid, 'allow': rng.random() < 0.75, 'rw': beh(), 'ext': beh(), 'pipeline': rng.random() < 0.3}
+                if tmo and rng.random() < 0.3:
+                    st['rw'] = {'delay': tmo * 1000000 + rng.choice([300000, 1000000, 2500000]), 'frag': rng.choice([0, 1, 1, 3]), 'chan': 'same'}
+                    st['allow'] = True
+                steps.append(st)
             conns.append({'name': 'c%d' % c, 'start': rng.choice([0, 0, 300]), 'steps': steps})
         plan['conns'] = conns
         plan['_lists'] = ['conns'] + ['conns.%d.steps' % i for i in range(len(conns))]
@@ -98,6 +106,10 @@ class C47(hc.PProp):
                 for sv, r in fw:
                     stats['rewrites_judged'] += 1
                     if 'r%s' % rid not in asked:
+                        continue
+                    tmo = plan.get('rw_timeout', 0)
+                    if tmo and r.target == b'/r%d' % st['id'] and st['rw']['delay'] >= tmo * 800000:
+                        stats['timed_out_bypassed'] = stats.get('timed_out_bypassed', 0) + 1   # its own answer came (nearly) too late: forwarding it unrewritten is what on_timeout=bypass means
                         continue
                     if r.target != b'/w%d' % st['id']:
                         V.append(Violation('C47:rewrite-result-misapplied', 'request %s was forwarded as %r; its own rewriter reply names /w%s (rewriter concurrency %d, behaviour %s)' % (rid, r.target, rid, plan['rc'], st['rw'])))
